@@ -85,6 +85,7 @@ type funcContract struct {
 	trusted    bool // extern: contract is assumed, body never verified
 	requires   []*clause
 	ensures    []*clause
+	assumed    []*clause // postconditions assumed at call sites but not checked on the body (listed as assumptions)
 	modifies   []*clause
 	decreases  *clause
 	loops      []*loopContract
@@ -92,7 +93,8 @@ type funcContract struct {
 	params     []string // for extern: parameter names in order (incl. receiver first if any)
 	results    []string
 	ats        []*atClause
-	fresh      bool // extern result is freshly allocated
+	fresh      bool // result slice is freshly allocated by the callee
+	freshExprs []*clause // post-state expressions (slices) that the callee allocated
 	nofail     bool
 	dispatch   map[string]string // interface type name -> concrete receiver type text (devirtualisation, justified by a requires clause)
 }
@@ -103,6 +105,7 @@ type specFunc struct {
 	ret     string
 	body    Expr // nil => uninterpreted
 	model   bool // abstract-state observer
+	seq     bool // uninterpreted function of the contents of its slice arguments
 	opaque  bool // uninterpreted over the heap pieces named by reads
 	reads   []Expr
 	impls   []*specFunc
@@ -241,7 +244,17 @@ func (db *specDB) loadSpecFile(path string, pkgName string, isGo bool) error {
 		case "pure":
 			cur.pure = true
 		case "fresh":
-			cur.fresh = true
+			if strings.TrimSpace(rest) == "" {
+				cur.fresh = true
+			} else {
+				for _, part := range splitTopLevel(rest, ',') {
+					cl, err := mkClause(strings.TrimSpace(part))
+					if err != nil {
+						return err
+					}
+					cur.freshExprs = append(cur.freshExprs, cl)
+				}
+			}
 		case "dispatch":
 			f := strings.Fields(rest)
 			if len(f) != 2 {
@@ -259,7 +272,7 @@ func (db *specDB) loadSpecFile(path string, pkgName string, isGo bool) error {
 			if strings.HasPrefix(cur.implements, "(") && !strings.Contains(cur.implements[:strings.Index(cur.implements, ")")], ".") {
 				cur.implements = pkgName + "." + cur.implements
 			}
-		case "requires", "ensures", "invariant", "modifies", "decreases":
+		case "requires", "ensures", "assume-ensures", "invariant", "modifies", "decreases":
 			if cur == nil {
 				return fmt.Errorf("%s: clause outside func", where)
 			}
@@ -287,6 +300,8 @@ func (db *specDB) loadSpecFile(path string, pkgName string, isGo bool) error {
 				cur.requires = append(cur.requires, cl)
 			case "ensures":
 				cur.ensures = append(cur.ensures, cl)
+			case "assume-ensures":
+				cur.assumed = append(cur.assumed, cl)
 			case "invariant":
 				if curLoop == nil {
 					return fmt.Errorf("%s: invariant outside loop", where)
@@ -326,7 +341,7 @@ func (db *specDB) loadSpecFile(path string, pkgName string, isGo bool) error {
 				return fmt.Errorf("%s: bad statement string %s", where, at)
 			}
 			cur.ats = append(cur.ats, &atClause{kind: kw, cl: cl, stmt: normSrc(st), nth: nth})
-		case "spec", "model", "opaque":
+		case "spec", "model", "opaque", "seq":
 			// spec func name(params) type [= expr]   |   opaque func name(params) type reads e1, e2
 			var readsTxt string
 			if kw == "opaque" {
@@ -340,6 +355,9 @@ func (db *specDB) loadSpecFile(path string, pkgName string, isGo bool) error {
 				return err
 			}
 			sf.pkg = pkgName
+			if kw == "seq" {
+				sf.seq = true
+			}
 			if kw == "opaque" {
 				sf.opaque = true
 				for _, part := range splitTopLevel(readsTxt, ',') {
